@@ -51,7 +51,7 @@ TEXT = {
 }
 
 BASE = dict(NTopics=1, NClients=2, Rounds=1, MaxEvents=1, MaxPolls=0, MaxTicks=0, MaxFires=0, Api="FALSE", Known="{}",
-            SpinTopics="{}", BufCap=1, RespCap=1, WithIndexer="FALSE", MaxHeaders=0, TraceMode="FALSE")
+            SpinTopics="{}", BufCap=1, RespCap=1, WithIndexer="FALSE", MaxHeaders=0, TraceMode="FALSE", Foreign="FALSE")
 
 SIZES = {
     "quick": dict(sim=20, stress=20, race=4, stress_events=8),
@@ -88,7 +88,7 @@ def write(path, text):
 
 # ------------------------------------------------------------------------------------------------ design runs
 
-DESIGN_INVS = ["NoCrash", "NoLostTopic", "LockInv", "NoLeakedPublisher", "TopicAgreement", "IndexerInv", "NoDrainBlock"]
+DESIGN_INVS = ["NoCrash", "NoLostTopic", "LockInv", "NoLeakedPublisher", "TopicAgreement", "IndexerInv", "NoDrainBlock", "NoDoubleUninstall"]
 
 
 def design_configs(tier):
@@ -97,6 +97,8 @@ def design_configs(tier):
         ("es-1c-3r-1e", dict(NClients=1, Rounds=3, MaxEvents=1), 16),
         ("api-1c", dict(NClients=1, Rounds=1, MaxEvents=1, Api="TRUE", MaxPolls=1, MaxTicks=1, MaxFires=1, NTopics=2, SpinTopics="{2}"), 16),
         ("indexer", dict(NClients=0, MaxEvents=0, WithIndexer="TRUE", MaxHeaders=3), 16),
+        # several clients, one filter id: each client may also uninstall the other's filter (uninstall x uninstall, x GetFilterChanges)
+        ("api-2c-sameid", dict(NClients=2, Rounds=1, MaxEvents=0, Api="TRUE", MaxPolls=1, Foreign="TRUE"), 16),
     ]
     if tier == "thorough":
         q += [
@@ -107,6 +109,7 @@ def design_configs(tier):
             ("es-3c-1r-1e", dict(NClients=3, Rounds=1, MaxEvents=1), 16),
             ("es-2c-2r-1e", dict(NClients=2, Rounds=2, MaxEvents=1), 16),
             ("api-2c", dict(NClients=2, Rounds=1, MaxEvents=0, Api="TRUE", MaxPolls=1, MaxTicks=1, MaxFires=1), 16),
+            ("api-2c-sameid-expiry", dict(NClients=2, Rounds=1, MaxEvents=0, Api="TRUE", MaxPolls=1, MaxTicks=1, MaxFires=1, Foreign="TRUE"), 16),
         ]
     return q
 
@@ -147,7 +150,7 @@ def sub_design(ctx):
         runs.append("%s (WF, %s): %d distinct" % (name, "+".join(props), r["distinct"]))
         log("design run %s: %s hold under weak fairness (%d distinct states)" % (name, ", ".join(props), r["distinct"]))
     # vacuity: every label of the design is taken in some configuration (deviation-only labels excepted)
-    dead = [lab for lab, n in reached.items() if n == 0 and lab not in ("pt_del", "c_inst", "g_drain", "el_i_unlock0")]
+    dead = [lab for lab, n in reached.items() if n == 0 and lab not in ("pt_del", "c_inst", "g_drain", "el_i_unlock0", "u_del", "xu_del")]
     never = [lab for lab in ("el_u_close", "ce_sent", "pt_closeall", "pt_chk", "co_err", "co_closed", "g_lock", "u_lock", "tl_sweep",
                              "ih_q", "im_q", "im_index") if reached.get(lab, 0) == 0]
     if dead or never:
@@ -168,7 +171,7 @@ def run_child(binp, plan, timeout=120, kind="run"):
     except subprocess.TimeoutExpired as e:
         rc, err = -9, (e.stderr or "") if isinstance(e.stderr, str) else ""
     res = None
-    rp = os.path.join(plan["out"], {"run": "result.json", "indexer": "indexer.json", "buslock": "buslock.json", "ws": "ws.json"}[kind])
+    rp = os.path.join(plan["out"], {"run": "result.json", "indexer": "indexer.json", "buslock": "buslock.json", "ws": "ws.json", "sameid": "sameid.json"}[kind])
     if os.path.exists(rp):
         with open(rp) as f:
             res = json.load(f)
@@ -195,7 +198,7 @@ def judge(d, known, drop_invs=()):
     vlib.stage_spec(d)
     invs = [i for i in ("NoLostTopic", "LockInv", "RealNoCrash", "Coverage") if i not in drop_invs]
     consts = dict(NTopics=max(2, hdr.get("topics", 1)), NClients=hdr["clients"], Rounds=hdr["rounds"], MaxEvents=100000, MaxPolls=100000,
-                  MaxTicks=100000,
+                  MaxTicks=100000, Foreign="TRUE",
                   Api="TRUE" if hdr["api"] else "FALSE", Known=known_set(known), SpinTopics="{2}", BufCap=100000, RespCap=100000,
                   TraceMode="TRUE")
     name = "judge%d" % (int(time.time() * 1e6) % 10 ** 9)
@@ -423,7 +426,8 @@ def sub_indexer(ctx):
         ctx["cov"].setdefault("race_reports", {})["indexer-" + tag] = c["races"]
         if c["races"]:
             log("indexer stress (%s): %d race-detector report(s) on latestBlock (D13) -- evidence only" % (tag, c["races"]))
-        if not res["inOrder"] or len(res["indexed"]) != n:
+        first = res["indexed"][0] if res["indexed"] else 1
+        if not res["inOrder"] or len(res["indexed"]) != n - first + 1:
             rp = vlib.save_replay(ctx["pid"], "D13", [([json.dumps(res)], "indexer.json")], "heights indexed out of order / missing")
             v.violation("Corrupt/indexer-heights-out-of-order-or-missing", rp,
                         "indexed %d of %d heights, in order=%s" % (len(res["indexed"]), n, res["inOrder"]))
@@ -431,7 +435,7 @@ def sub_indexer(ctx):
             v.violation("Deadlock/indexer-OnStart-does-not-return", "-", "OnStart did not return after Stop()")
         else:
             ctx["traces_ok"] += 1
-            log("indexer stress (%s): %d heights indexed once each in order%s" % (tag, n, "" if res["returned"] else " (OnStart blocked at Stop: D27)"))
+            log("indexer stress (%s): heights %d..%d indexed once each in order%s" % (tag, first, n, "" if res["returned"] else " (OnStart blocked at Stop: D27)"))
 
 
 # ------------------------------------------------------------------------------------------------ timer expiry (hook H4)
@@ -477,6 +481,82 @@ def sub_timers(ctx):
     for plan, o in outs:
         handle_outcome(ctx, o, plan, "expiry-%s" % os.path.basename(plan["out"]), known)
     log("timer expiry: sweep vs. polling owners steered 3x on the real code: %s (expired filters are gone when the pollers get the lock)" % classes)
+
+
+# ------------------------------------------------------------------------------------------------ several clients, one filter id
+
+SIG_DOUBLE = "Schedule/double-uninstall-of-one-subscription-close-of-closed-channel"
+
+
+def sub_sameid(ctx):
+    """Several clients act on the SAME filter id at once (FilterSystem.tla: foreign uninstall `xu_lock`, invariants
+    NoDoubleUninstall / NoCrash; deviation SplitUninstall = lookup, unlock, Unsubscribe, re-lock, delete, refuted by TLC):
+    uninstall x uninstall, uninstall x GetFilterChanges, uninstall / poll x timeoutLoop's expiry sweep (hook H4) on the real
+    PublicFilterAPI, 300 filters x 4 callers released by a barrier, each variant 3x in child processes."""
+    v, w, binp = ctx["v"], ctx["w"], ctx["bin"]
+    d = w.sub("sameid")
+    vlib.stage_spec(d)
+    write(os.path.join(d, "split.cfg"), cfg("MCSpec", dict(NClients=2, Rounds=1, MaxEvents=0, Api="TRUE", MaxPolls=1, Foreign="TRUE",
+                                                           Known='{"SplitUninstall"}'), ["NoDoubleUninstall", "NoCrash"]))
+    r = vlib.tlc(d, "FilterSystem", "split.cfg", workers=1, timeout=900)
+    if not r["violated"]:
+        raise Infra("deviation SplitUninstall enabled but TLC finds no double uninstall (deviation vacuous):\n" + r["out"][-1500:])
+    v.add_mc(r)
+    sched = re.findall(r"^State \d+: <(\w+)(?:\((\d+)\))? line", r["out"], re.M)
+    ctx["samples"].append(dict(deviation="SplitUninstall", schedule=" ".join(a + ("(%s)" % b if b else "") for a, b in sched)))
+    log("deviation SplitUninstall (lookup, unlock, Unsubscribe, re-lock, delete): TLC refutes NoDoubleUninstall after %d distinct states, %d steps: ... %s"
+        % (r["distinct"], len(sched), " ".join(a + ("(%s)" % b if b else "") for a, b in sched[-6:])))
+    jobs = [(var, k) for var in ("uu", "ug", "ux") for k in range(3)]
+
+    def size(var, k):
+        return dict(filters=300 if var == "ux" else 1500 * (1 + k // 3), callers=6)
+
+    def once(job):
+        var, k = job
+        plan = dict(variant=var, deadlineMs=6 if var == "ux" else 0, out=os.path.join(d, "%s%d" % (var, k)), **size(var, k))
+        return var, run_child(binp, plan, kind="sameid", timeout=240)
+
+    outs = pmap(once, jobs, workers=3)
+    for var in ("uu", "ug", "ux"):  # a scenario that failed in some runs only is run three more times (twice the size) before it is judged
+        n = sum(1 for vv, c in outs if vv == var and c["panic"])
+        if 0 < n < 3:
+            outs += pmap(once, [(var, k) for k in range(3, 6)], workers=3)
+    ctx["replayed"] += len(outs)
+    summary = {}
+    for var in ("uu", "ug", "ux"):
+        rs = [c for vv, c in outs if vv == var]
+        crashes = [c for c in rs if c["panic"]]
+        doubles = [c for c in rs if not c["panic"] and (c["result"]["doubleTrue"] > 0 or c["result"]["uninstalls"] > c["result"]["rounds"])]
+        blocked = [c for c in rs if not c["panic"] and c["result"]["blocked"]]
+        summary[var] = "crash %d/%d, double %d/%d, blocked %d/%d" % (len(crashes), len(rs), len(doubles), len(rs), len(blocked), len(rs))
+        name = {"uu": "UninstallFilter x UninstallFilter", "ug": "UninstallFilter x GetFilterChanges", "ux": "UninstallFilter x timeoutLoop expiry"}[var]
+        plan = dict(variant=var, deadlineMs=6 if var == "ux" else 0, out="replayed", **size(var, 3))
+        if len(crashes) >= 3:
+            c = crashes[0]
+            where = "eventLoop" if "eventLoop" in c["stderr"] else ("consumeEvents" if "consumeEvents" in c["stderr"] else "another goroutine")
+            sig = SIG_DOUBLE if "close of closed" in c["panic"] else "Crash/%s-%s" % (where, re.sub(r"[^A-Za-z]+", "-", c["panic"])[:40])
+            if sig not in ctx["reported"]:
+                ctx["reported"].add(sig)
+                rp = vlib.save_replay(ctx["pid"], "sameid-" + var, [([json.dumps(dict(kind="sameid", expect="crash", plan=plan))], "case.json"),
+                                                                   ([c["stderr"][-3000:]], "stderr.txt")],
+                                      "%s on the same filter id: the node dies of 'panic: %s' in %s (%d/%d runs)" % (name, c["panic"], where, len(crashes), len(rs)))
+                v.violation(sig, rp, "%s on one filter id (6 callers released together, up to 1500 filters): 'panic: %s' in %s, %d/%d runs -- more than one Unsubscribe of one "
+                            "subscription reached eventLoop, which ends every uninstall with close(f.err) [NoDoubleUninstall / NoCrash]"
+                            % (name, c["panic"], where, len(crashes), len(rs)))
+        elif len(doubles) == 3:
+            r0 = doubles[0]["result"]
+            rp = vlib.save_replay(ctx["pid"], "sameid-" + var, [([json.dumps(dict(kind="sameid", expect="double", plan=plan))], "case.json")], json.dumps(r0))
+            v.violation("Schedule/double-uninstall-of-one-subscription", rp, "%s: %d filters with more than one successful UninstallFilter, %d uninstalls "
+                        "processed for %d filters (3/3 runs) [NoDoubleUninstall]" % (name, r0["doubleTrue"], r0["uninstalls"], r0["rounds"]))
+        elif len(blocked) == 3:
+            rp = vlib.save_replay(ctx["pid"], "sameid-" + var, [([json.dumps(dict(kind="sameid", expect="blocked", plan=plan))], "case.json")], "blocked")
+            v.violation("Deadlock/same-id-" + var, rp, "%s: callers still blocked after 60 s (3/3 runs)" % name)
+        elif crashes or doubles or blocked:
+            raise Infra("same-id scenario %s not reproducible: %s" % (var, summary[var]))
+        else:
+            ctx["traces_ok"] += 3
+    ctx["cov"]["same_id_contention"] = summary
+    log("same filter id, several clients (uninstall x uninstall / x GetFilterChanges / x expiry sweep), 3 x 3 runs, 6 callers per filter id released together: %s" % summary)
 
 
 # ------------------------------------------------------------------------------------------------ lock order of the bus
@@ -1462,7 +1542,7 @@ def sub_logfilter_ctx(ctx):
     ctx["selftests"] += ctx["v"].cov["logfilter"]["selftest"]
 
 
-SUBCHECKS = [sub_design, sub_buslocks, sub_ws_ctx, sub_logfilter_ctx, sub_deviations, sub_indexer, sub_timers, sub_simulate, sub_stress, sub_selftest]
+SUBCHECKS = [sub_design, sub_buslocks, sub_sameid, sub_ws_ctx, sub_logfilter_ctx, sub_deviations, sub_indexer, sub_timers, sub_simulate, sub_stress, sub_selftest]
 
 
 
@@ -1531,6 +1611,10 @@ def do_replay(pid, w, replay):
         bad = ws_replay(binp, w, case)
     elif case["kind"] == "logs":
         bad = lf_replay(binp, w, case)
+    elif case["kind"] == "sameid":
+        c = run_child(binp, plan, kind="sameid", timeout=180)
+        bad = bool(c["panic"]) or c["result"]["doubleTrue"] > 0 or c["result"]["blocked"]
+        log("replay: same-id scenario -> panic=%s result=%s" % (c["panic"], c["result"]))
     elif case["kind"] == "buslock":
         c = run_child(binp, plan, kind="buslock")
         bad = bool(c["result"]["blocked"]) or not c["result"]["delivered"]
